@@ -1,7 +1,15 @@
 package props
 
 import (
+	"fmt"
+	"go/token"
+	"go/types"
+	"strings"
+
+	"golang.org/x/tools/go/ssa"
+
 	"utilcheck/flow"
+	"utilcheck/pred"
 )
 
 func init() {
@@ -42,6 +50,567 @@ func runC12(e *Env) {
 	e.S.Floor("C12.whole", 1)
 	e.S.Floor("C12.zero", 1)
 	e.S.Floor("C12.count", 1)
+	ruleC12Gate(e)
+	ruleC12Keys(e)
+	e.S.Floor("C12.gate", 10)
+	e.S.Floor("C12.keys", 12)
 	ruleWrap(e, "C12.wrap", "size")
 	e.S.Floor("C12.wrap", 8)
+}
+
+func (e *Env) jsonType(name string) types.Type {
+	for _, p := range e.P.SSA.AllPackages() {
+		if p.Pkg.Path() == "encoding/json" {
+			if t := p.Type(name); t != nil {
+				return t.Type()
+			}
+		}
+	}
+	return nil
+}
+
+// parseErrKind classifies the error value a size parser function returns: "nil", a sentinel name, "typed(<inner>)".
+func sizeErrKind(v pred.Val) string {
+	switch x := v.(type) {
+	case pred.Const:
+		if x.V == nil {
+			return "nil"
+		}
+	case pred.Sym:
+		return strings.TrimPrefix(x.Name, "*size.")
+	case pred.Term:
+		if strings.HasPrefix(x.Fn, "fmt.Errorf") && len(x.Args) > 1 {
+			if sv, ok := x.Args[1].(*pred.SliceV); ok && len(sv.Elems) > 0 {
+				return "wrap(" + sizeErrKind(sv.Elems[0].V) + ")"
+			}
+		}
+		return x.String()
+	case pred.Iface:
+		if p, ok := x.V.(pred.Ptr); ok && p.Cell != nil {
+			if s, ok := p.Cell.V.(*pred.StructV); ok && len(s.Fields) == 3 {
+				return "ParseError(" + sizeErrKind(s.Fields[2]) + ")"
+			}
+		}
+		return sizeErrKind(x.V)
+	}
+	return v.String()
+}
+
+func ruleC12Gate(e *Env) {
+	const rule = "C12.gate"
+	dp := e.Fn(rule, "size", "DefaultParser")
+	if dp == nil {
+		return
+	}
+	// the function that constructs the decoder
+	var jv *ssa.Function
+	for _, f := range flow.SortedFuncs(e.C.Reachable(dp)) {
+		if len(e.C.Calls(f, func(g *ssa.Function) bool { return g.String() == "encoding/json.NewDecoder" })) > 0 {
+			jv = f
+		}
+	}
+	ut := e.P.Func("size", "unmarshalText")
+	ujo := e.P.Func("size", "unmarshalJSONObject")
+	delimT, numberT := e.jsonType("Delim"), e.jsonType("Number")
+	if jv == nil || ut == nil || ujo == nil || delimT == nil || numberT == nil {
+		e.S.Unk(rule, flow.FnName(dp), "anchors", "JSON value function / unmarshalText / unmarshalJSONObject / json types not found", e.Pos(dp))
+		return
+	}
+	site := flow.FnName(jv)
+	strBit, _ := tabConstInt(e, "size", "RuleEnableJSONStringForm")
+	objBit, _ := tabConstInt(e, "size", "RuleEnableJSONObjectForm")
+	keyOf := func(a, b pred.Val) (string, bool) {
+		c, ok := b.(pred.Const)
+		if ok && c.V != nil {
+			if s, ok := a.(pred.Sym); ok && s.Name == "tok" {
+				return "delim==" + c.V.ExactString(), true
+			}
+			if bits, ok := a.(pred.Bits); ok && c.V.ExactString() == "0" {
+				var idx []string
+				for i, bit := range bits.B {
+					switch bit.K {
+					case 's':
+						if bit.Sym != "r" || bit.Idx != i {
+							return "", false
+						}
+						idx = append(idx, fmt.Sprint(i))
+					case '0':
+					default:
+						return "", false
+					}
+				}
+				return "rule&bits(" + strings.Join(idx, ",") + ")", true
+			}
+		}
+		return errKeyOf(a, b)
+	}
+	kStr, kObj := fmt.Sprintf("rule&bits(%d)", bitIndex(strBit)), fmt.Sprintf("rule&bits(%d)", bitIndex(objBit))
+	for _, sc := range []struct {
+		name string
+		dyn  types.Type
+	}{{"Delim", delimT}, {"Number", numberT}, {"string", types.Typ[types.String]}, {"other (bool/nil/float)", types.Typ[types.Bool]}} {
+		sums := map[string]pred.Summary{
+			"(*encoding/json.Decoder).Token": func(ev *pred.Evaluator, args []pred.Val) (pred.Val, error) {
+				return pred.Tuple{pred.Iface{Dyn: sc.dyn, V: pred.Sym{Name: "tok"}}, pred.Const{}}, nil
+			},
+			ut.String(): func(ev *pred.Evaluator, args []pred.Val) (pred.Val, error) {
+				return pred.Tuple{pred.Term{Fn: "unmarshalText#0", Args: args}, pred.Term{Fn: "unmarshalText#1", Args: args}}, nil
+			},
+			ujo.String(): func(ev *pred.Evaluator, args []pred.Val) (pred.Val, error) {
+				return pred.Tuple{pred.Term{Fn: "object#0", Args: args[1:]}, pred.Term{Fn: "object#1", Args: args[1:]}}, nil
+			},
+		}
+		mk := func() []pred.Val { return []pred.Val{pred.Sym{Name: "input"}, pred.Sym{Name: "r"}} }
+		leaves, err := extractTree(e.P.SSA, jv, mk, sums, nil, keyOf, binDomain)
+		if err != nil {
+			e.S.Unk(rule, site, sc.name, err.Error(), e.Pos(jv))
+			continue
+		}
+		for _, lf := range leaves {
+			construct := sc.name + " {" + lf.String() + "}"
+			if lf.Err != nil {
+				e.S.Unk(rule, site, construct, lf.Err.Error(), e.Pos(jv))
+				continue
+			}
+			t, ok := lf.Out.Ret.(pred.Tuple)
+			if !ok || len(t) != 2 {
+				e.S.Unk(rule, site, construct, lf.Out.Ret.String(), e.Pos(jv))
+				continue
+			}
+			val, errk := t[0].String(), sizeErrKind(t[1])
+			get := func(k string) int {
+				v, ok := lf.Assign[k]
+				if !ok {
+					return 2
+				}
+				if v == 0 {
+					return 1
+				}
+				return 0
+			}
+			want := "?"
+			switch sc.name {
+			case "Delim":
+				brace := get("delim==123")
+				objOff := get(kObj) // masked == 0 ⇒ flag clear
+				switch {
+				case brace == 0:
+					want = "0 / ParseError(ErrExpectedObject)"
+				case brace == 1 && objOff == 1:
+					want = "0 / ParseError(ErrObjectFormDisabled)"
+				case brace == 1 && objOff == 0:
+					if get("nil? object#1(r)") == 1 {
+						want = "object#0(r) / nil"
+					} else if get("nil? object#1(r)") == 0 {
+						want = "0 / ParseError(object#1(r))"
+					}
+				}
+			case "Number":
+				want = "unmarshalText#0(tok,0) / unmarshalText#1(tok,0)"
+			case "string":
+				switch get(kStr) {
+				case 1:
+					want = "0 / ParseError(ErrStringFormDisabled)"
+				case 0:
+					want = "unmarshalText#0(tok,0) / unmarshalText#1(tok,0)"
+				}
+			default:
+				want = "0 / ParseError(wrap(ErrInvalidType))"
+			}
+			got := val + " / " + errk
+			switch {
+			case want == "?":
+				e.S.Bad(rule, site, construct, "outcome "+got+" is decided without consulting what the documented gate depends on", e.Pos(jv), "")
+			case got != want:
+				e.S.Bad(rule, site, construct, "outcome "+got+", documented "+want, e.Pos(jv), "")
+			default:
+				e.S.Ok(rule, site, construct, "outcome "+want, e.Pos(jv))
+			}
+			// UseNumber before the first Token
+			iu, it := -1, -1
+			for i, tr := range lf.Trace {
+				if strings.HasPrefix(tr, "(*encoding/json.Decoder).UseNumber(") && iu < 0 {
+					iu = i
+				}
+			}
+			_ = it
+			if sc.name == "Number" {
+				if iu < 0 {
+					e.S.Bad(rule, site, "UseNumber", "the decoder is not switched to json.Number: integers above 2^53 lose precision as float64 and are rejected as 'other'", e.Pos(jv), "9007199254740993")
+				} else {
+					e.S.Ok(rule, site, "UseNumber", "UseNumber is called on the decoder before the value is read", e.Pos(jv))
+				}
+			}
+		}
+	}
+	// DefaultParser: JSON mode iff a JSON rule bit is set
+	isJSON := strBit | objBit
+	var jsonEntry *ssa.Function
+	for _, call := range e.C.Calls(dp, flow.InRepo) {
+		callee := e.C.StaticCallee(&call.Call)
+		if callee != ut && e.C.Reachable(callee)[jv] {
+			jsonEntry = callee
+		}
+	}
+	if jsonEntry == nil {
+		e.S.Unk(rule, flow.FnName(dp), "mode", "DefaultParser does not call the JSON path directly", e.Pos(dp))
+		return
+	}
+	sums := map[string]pred.Summary{
+		ut.String(): func(ev *pred.Evaluator, args []pred.Val) (pred.Val, error) {
+			return pred.Term{Fn: "text", Args: args}, nil
+		},
+		jsonEntry.String(): func(ev *pred.Evaluator, args []pred.Val) (pred.Val, error) {
+			return pred.Term{Fn: "json", Args: args}, nil
+		},
+	}
+	fixed := func(a, b pred.Val) (int, bool, bool) {
+		if a.String() == "*size.MaxInputLength" && b.String() == "0" {
+			return 0, true, true
+		}
+		return 0, false, false
+	}
+	leaves, err := extractTree(e.P.SSA, dp, func() []pred.Val { return []pred.Val{pred.Sym{Name: "input"}, pred.Sym{Name: "r"}} }, sums, fixed, keyOf, binDomain)
+	if err != nil {
+		e.S.Unk(rule, flow.FnName(dp), "mode", err.Error(), e.Pos(dp))
+		return
+	}
+	var bitsIdx []string
+	for i := 0; i < 63; i++ {
+		if isJSON>>uint(i)&1 == 1 {
+			bitsIdx = append(bitsIdx, fmt.Sprint(i))
+		}
+	}
+	kJSON := "rule&bits(" + strings.Join(bitsIdx, ",") + ")"
+	for _, lf := range leaves {
+		construct := "mode {" + lf.String() + "}"
+		if lf.Err != nil {
+			e.S.Unk(rule, flow.FnName(dp), construct, lf.Err.Error(), e.Pos(dp))
+			continue
+		}
+		v, asked := lf.Assign[kJSON]
+		got := lf.Out.Ret.String()
+		switch {
+		case !asked:
+			e.S.Bad(rule, flow.FnName(dp), construct, "DefaultParser does not select the mode by exactly the two JSON rule bits (asked "+lf.String()+")", e.Pos(dp), "")
+		case v == 1 && got == "(json#0(input,r), json#1(input,r))", v == 0 && got == "(text#0(input,r), text#1(input,r))":
+			e.S.Ok(rule, flow.FnName(dp), construct, map[bool]string{true: "a JSON rule bit set ⇒ JSON path", false: "no JSON rule bit ⇒ text path"}[v == 1], e.Pos(dp))
+		default:
+			e.S.Bad(rule, flow.FnName(dp), construct, "returns "+got+"; documented: JSON path iff a JSON rule bit is set, with the input and rule passed unchanged", e.Pos(dp), "")
+		}
+	}
+}
+
+// ruleC12Keys: the object reader's member handling.
+func ruleC12Keys(e *Env) {
+	const rule = "C12.keys"
+	// newOrError
+	if fn := e.Fn(rule, "size", "newOrError"); fn != nil {
+		site := flow.FnName(fn)
+		ns := e.P.Func("size", "newSize")
+		sums := map[string]pred.Summary{}
+		if ns != nil {
+			sums[ns.String()] = func(ev *pred.Evaluator, args []pred.Val) (pred.Val, error) {
+				return pred.Tuple{pred.Term{Fn: "newSize#0", Args: args}, pred.Term{Fn: "newSize#1", Args: args}}, nil
+			}
+		}
+		for _, c := range []struct {
+			name     string
+			val, uni bool
+			want     string
+		}{{"value missing", false, true, "(0, *size.ErrMissingValueKey)"}, {"both missing", false, false, "(0, *size.ErrMissingValueKey)"},
+			{"unit missing", true, false, "(0, *size.ErrMissingUnitKey)"}, {"both present", true, true, "(newSize#0(v,u), newSize#1(v,u))"}} {
+			var pv, pu pred.Val = pred.Ptr{}, pred.Ptr{}
+			if c.val {
+				pv = pred.Ptr{Cell: &pred.Cell{V: pred.Sym{Name: "v"}, Name: "value"}}
+			}
+			if c.uni {
+				pu = pred.Ptr{Cell: &pred.Cell{V: pred.Sym{Name: "u"}, Name: "unit"}}
+			}
+			ev := &pred.Evaluator{Prog: e.P.SSA, Oracle: noOracle{}, Summaries: sums}
+			out, err := ev.Eval(fn, []pred.Val{pv, pu})
+			switch {
+			case err != nil:
+				e.S.Unk(rule, site, c.name, err.Error(), e.Pos(fn))
+			case out.Ret.String() != c.want:
+				e.S.Bad(rule, site, c.name, "returns "+out.Ret.String()+", documented "+c.want, e.Pos(fn), "")
+			default:
+				e.S.Ok(rule, site, c.name, "returns "+c.want, e.Pos(fn))
+			}
+		}
+	}
+	// decodeValue / decodeUnit
+	numberT := e.jsonType("Number")
+	for _, d := range []struct {
+		fn     string
+		accept types.Type
+		what   string
+	}{{"decodeValue", numberT, "json.Number"}, {"decodeUnit", types.Typ[types.String], "string"}} {
+		fn := e.Fn(rule, "size", d.fn)
+		if fn == nil || d.accept == nil {
+			continue
+		}
+		site := flow.FnName(fn)
+		for _, sc := range []struct {
+			name string
+			dyn  types.Type
+		}{{"json.Number", numberT}, {"string", types.Typ[types.String]}, {"json.Delim", e.jsonType("Delim")}, {"bool", types.Typ[types.Bool]}} {
+			if sc.dyn == nil {
+				continue
+			}
+			decT := e.jsonType("Decoder")
+			if decT == nil {
+				continue
+			}
+			dyn := sc.dyn
+			mk := func() []pred.Val {
+				return []pred.Val{pred.Iface{Dyn: types.NewPointer(decT), V: pred.Sym{Name: "dec"}}}
+			}
+			sums := map[string]pred.Summary{
+				"(*encoding/json.Decoder).Token": func(ev *pred.Evaluator, args []pred.Val) (pred.Val, error) {
+					return pred.Tuple{pred.Iface{Dyn: dyn, V: pred.Sym{Name: "tok"}}, pred.Term{Fn: "tokErr"}}, nil
+				},
+			}
+			leaves, err := extractTree(e.P.SSA, fn, mk, sums, nil, errKeyOf, binDomain)
+			if err != nil {
+				e.S.Unk(rule, site, sc.name, err.Error(), e.Pos(fn))
+				continue
+			}
+			for _, lf := range leaves {
+				construct := sc.name + " {" + lf.String() + "}"
+				if lf.Err != nil {
+					e.S.Unk(rule, site, construct, lf.Err.Error(), e.Pos(fn))
+					continue
+				}
+				t, _ := lf.Out.Ret.(pred.Tuple)
+				if len(t) != 2 {
+					e.S.Unk(rule, site, construct, lf.Out.Ret.String(), e.Pos(fn))
+					continue
+				}
+				isAccepted := types.Identical(sc.dyn, d.accept)
+				errk := sizeErrKind(t[1])
+				if v, asked := lf.Assign["nil? tokErr()"]; asked && v == 1 {
+					if t[0].String() == "nil" || t[0].String() == "nilptr" {
+						if errk == "tokErr()" {
+							e.S.Ok(rule, site, construct, "decoder error returned with a nil result", e.Pos(fn))
+							continue
+						}
+					}
+					if p, ok := t[0].(pred.Ptr); ok && p.Cell == nil && errk == "tokErr()" {
+						e.S.Ok(rule, site, construct, "decoder error returned with a nil result", e.Pos(fn))
+					} else {
+						e.S.Bad(rule, site, construct, fmt.Sprintf("on a decoder error yields (%v, %s)", t[0], errk), e.Pos(fn), "")
+					}
+					continue
+				}
+				_, gotPtr := t[0].(pred.Ptr)
+				nonNil := gotPtr && t[0].(pred.Ptr).Cell != nil
+				switch {
+				case !isAccepted && errk == "wrap(ErrInvalidType)" && !nonNil:
+					e.S.Ok(rule, site, construct, "a "+sc.name+" token is rejected with ErrInvalidType", e.Pos(fn))
+				case !isAccepted:
+					e.S.Bad(rule, site, construct, fmt.Sprintf("a %s token yields (%v, %s); documented: only %s is accepted, anything else is ErrInvalidType", sc.name, t[0], errk, d.what), e.Pos(fn), "")
+				case errk == "nil" && nonNil:
+					e.S.Ok(rule, site, construct, "a "+d.what+" token is decoded", e.Pos(fn))
+				case errk != "nil" && !nonNil:
+					e.S.Ok(rule, site, construct, "conversion error propagated with a nil result", e.Pos(fn))
+				default:
+					e.S.Bad(rule, site, construct, fmt.Sprintf("yields (%v, %s)", t[0], errk), e.Pos(fn), "")
+				}
+			}
+		}
+	}
+	ruleC12Arms(e)
+}
+
+// ruleC12Arms: duplicate tests, the unknown-key arm and the nested-value skipper, read off the SSA of the readers.
+func ruleC12Arms(e *Env) {
+	const rule = "C12.keys"
+	rd := e.Fn(rule, "size", "unmarshalJSONObject")
+	if rd == nil {
+		return
+	}
+	site := flow.FnName(rd)
+	for _, arm := range []struct{ decode, sentinel, what string }{{"decodeValue", "ErrDuplicatedValueKey", "value"}, {"decodeUnit", "ErrDuplicatedUnitKey", "unit"}} {
+		dec := e.P.Func("size", arm.decode)
+		sent := e.P.Var("size", arm.sentinel)
+		calls := e.C.Calls(rd, func(f *ssa.Function) bool { return f == dec })
+		if dec == nil || sent == nil || len(calls) != 1 {
+			e.S.Unk(rule, site, arm.what+" arm", "call to "+arm.decode+" / sentinel "+arm.sentinel+" not found exactly once", e.Pos(rd))
+			continue
+		}
+		call := calls[0]
+		// the decoded pointer is what the loop carries as "already seen": a phi fed by this call's result #0
+		var seen *ssa.Phi
+		for _, r := range *call.Referrers() {
+			if ex, ok := r.(*ssa.Extract); ok && ex.Index == 0 {
+				for _, r2 := range *ex.Referrers() {
+					if ph, ok := r2.(*ssa.Phi); ok {
+						seen = ph
+					}
+				}
+			}
+		}
+		okDup := false
+		for d := call.Block(); d != nil && !okDup; d = d.Idom() {
+			id := d.Idom()
+			if id == nil {
+				break
+			}
+			iff, ok := id.Instrs[len(id.Instrs)-1].(*ssa.If)
+			if !ok {
+				continue
+			}
+			cmp, ok := iff.Cond.(*ssa.BinOp)
+			if !ok || !flow.IsNilConst(cmp.Y) || !(cmp.Op == token.NEQ || cmp.Op == token.EQL) {
+				continue
+			}
+			if seen != nil && !phiChain(cmp.X, seen) {
+				continue
+			}
+			dupEdge, cont := id.Succs[0], id.Succs[1]
+			if cmp.Op == token.EQL {
+				dupEdge, cont = cont, dupEdge
+			}
+			if !(cont == d || cont.Dominates(d)) {
+				continue
+			}
+			if ret, ok := dupEdge.Instrs[len(dupEdge.Instrs)-1].(*ssa.Return); ok && len(ret.Results) == 2 {
+				if flow.GlobalLoad(ret.Results[1]) == sent {
+					okDup = true
+				} else {
+					e.S.Bad(rule, site, arm.what+" arm", "a repeated \""+arm.what+"\" member is rejected with "+ret.Results[1].String()+", documented "+arm.sentinel, e.posOf(ret), "")
+					okDup = true
+				}
+			}
+		}
+		if okDup {
+			e.S.Ok(rule, site, arm.what+" arm", "\""+arm.what+"\" already seen ⇒ "+arm.sentinel+", tested before decoding", e.posOf(call))
+		} else {
+			e.S.Bad(rule, site, arm.what+" arm", "the \""+arm.what+"\" member is decoded without first rejecting a duplicate with "+arm.sentinel, e.posOf(call), `{"`+arm.what+`":…,"`+arm.what+`":…}`)
+		}
+	}
+	// unknown keys
+	skip := e.P.Func("size", "decodeAndSkipNested")
+	sentU := e.P.Var("size", "ErrUnexpectedKey")
+	bit, _ := tabConstInt(e, "size", "RuleDisallowUnknownKeys")
+	calls := e.C.Calls(rd, func(f *ssa.Function) bool { return f == skip })
+	if skip == nil || sentU == nil || len(calls) != 1 {
+		e.S.Unk(rule, site, "unknown-key arm", "decodeAndSkipNested / ErrUnexpectedKey not found exactly once", e.Pos(rd))
+	} else {
+		call := calls[0]
+		okGate := false
+		for d := call.Block(); d != nil; d = d.Idom() {
+			id := d.Idom()
+			if id == nil {
+				break
+			}
+			iff, ok := id.Instrs[len(id.Instrs)-1].(*ssa.If)
+			if !ok {
+				continue
+			}
+			cmp, ok := iff.Cond.(*ssa.BinOp)
+			if !ok {
+				continue
+			}
+			and, ok := cmp.X.(*ssa.BinOp)
+			if !ok || and.Op != token.AND {
+				continue
+			}
+			k, isK := flow.ConstInt(and.Y)
+			z, isZ := flow.ConstInt(cmp.Y)
+			if !isK || k != bit || !isZ || z != 0 || and.X != ssa.Value(rd.Params[1]) {
+				continue
+			}
+			setEdge, clrEdge := id.Succs[0], id.Succs[1]
+			if cmp.Op == token.EQL {
+				setEdge, clrEdge = clrEdge, setEdge
+			}
+			usesSent := false
+			for _, in := range setEdge.Instrs {
+				if u, ok := in.(*ssa.UnOp); ok && u.X == ssa.Value(sentU) {
+					usesSent = true
+				}
+			}
+			if (clrEdge == d || clrEdge.Dominates(d)) && usesSent && flow.LeadsOnlyToErrors(setEdge) {
+				okGate = true
+			}
+		}
+		if okGate {
+			e.S.Ok(rule, site, "unknown-key arm", "RuleDisallowUnknownKeys ⇒ ErrUnexpectedKey, otherwise the member's value is skipped", e.posOf(call))
+		} else {
+			e.S.Bad(rule, site, "unknown-key arm", "the unknown-key arm is not gated by exactly RuleDisallowUnknownKeys with ErrUnexpectedKey on the set edge", e.posOf(call), "")
+		}
+	}
+	// depth counter of the skipper
+	if skip != nil {
+		ssite := flow.FnName(skip)
+		var depth *ssa.Phi
+		for _, b := range skip.Blocks {
+			for _, in := range b.Instrs {
+				if ph, ok := in.(*ssa.Phi); ok {
+					for _, ed := range ph.Edges {
+						if k, ok := flow.ConstInt(ed); ok && k == 1 {
+							depth = ph
+						}
+					}
+				}
+			}
+		}
+		if depth == nil {
+			e.S.Unk(rule, ssite, "depth counter", "no nesting counter starting at 1 found (idioms: depth++ on '{' '[', depth-- on other delimiters, stop at 0)", e.Pos(skip))
+			return
+		}
+		incOK, decOK, exitOK := false, false, false
+		var opens []int64
+		for _, b := range skip.Blocks {
+			for _, in := range b.Instrs {
+				bo, ok := in.(*ssa.BinOp)
+				if !ok {
+					continue
+				}
+				if k, isK := flow.ConstInt(bo.Y); isK {
+					switch {
+					case bo.Op == token.ADD && k == 1 && phiChain(bo.X, depth):
+						incOK = true
+					case bo.Op == token.SUB && k == 1 && phiChain(bo.X, depth):
+						decOK = true
+					case bo.Op == token.EQL && k == 0:
+						exitOK = true
+					case bo.Op == token.EQL && (k == '{' || k == '['):
+						opens = append(opens, k)
+					}
+				}
+			}
+		}
+		if incOK && decOK && exitOK && len(opens) == 2 {
+			e.S.Ok(rule, ssite, "depth counter", "depth starts at 1, +1 on '{' and '[', −1 on the other delimiters, the skip ends at 0", e.Pos(skip))
+		} else {
+			e.S.Bad(rule, ssite, "depth counter", fmt.Sprintf("nesting counter is not the documented one (increment:%v decrement:%v stop-at-0:%v opening delimiters:%q)", incOK, decOK, exitOK, opens), e.Pos(skip), `{"x":[[1]],"value":1,"unit":"B"}`)
+		}
+	}
+}
+
+// phiChain: v is ph or a phi/merge fed (transitively) by ph.
+func phiChain(v ssa.Value, ph *ssa.Phi) bool {
+	seen := map[ssa.Value]bool{}
+	var rec func(x ssa.Value, d int) bool
+	rec = func(x ssa.Value, d int) bool {
+		if x == ssa.Value(ph) {
+			return true
+		}
+		if d > 6 || seen[x] {
+			return false
+		}
+		seen[x] = true
+		if p, ok := x.(*ssa.Phi); ok {
+			for _, e := range p.Edges {
+				if rec(e, d+1) {
+					return true
+				}
+			}
+		}
+		return false
+	}
+	return rec(v, 0)
 }
